@@ -686,7 +686,9 @@ func (pc plCase) build() Playlist {
 					s.DateTime = &t
 				}
 			}
-			s.URI = fmt.Sprintf("s%d_%d.mp4", pc.Mask, i)
+			// URIs as they come: plain, percent-encoded (path and signed query), a bare per cent sign, text that looks like
+			// formatting directives
+			s.URI = fmt.Sprintf([]string{"s%d_%d.mp4", "my%%20video/s%d_%d.mp4?sig=a%%2Bb%%3D", "100%%.s%d_%d.mp4", "%%s%%d%%v%%!_s%d_%d.ts"}[(pc.VS+i)%4], pc.Mask, i)
 			m.Segments = append(m.Segments, s)
 		}
 		// documented requirement: once a key is in force, "no key" is expressed as METHOD=NONE
@@ -1055,6 +1057,12 @@ func corpusTexts() []string {
 		"#EXTM3U\n#EXT-X-VERSION:4\n#EXT-X-TARGETDURATION:2\n#EXTINF:2,\nplain.ts\n#EXTINF:2,\n#EXT-X-BYTERANGE:10\na.ts\n#EXTINF:2,\n#EXT-X-BYTERANGE:10\na.ts\n#EXTINF:2,\n#EXT-X-BYTERANGE:7@3\nb.ts\n#EXTINF:2,\n#EXT-X-BYTERANGE:10\na.ts\n#EXTINF:2,\n#EXT-X-BYTERANGE:10\na.ts\n",
 		"#EXTM3U\n#EXT-X-VERSION:7\n#EXT-X-TARGETDURATION:2\n#EXT-X-MAP:URI=\"i.mp4\",BYTERANGE=\"10@0\"\n#EXT-X-KEY:METHOD=AES-128,URI=\"k1\"\n#EXTINF:2,\n#EXT-X-BYTERANGE:10@10\na.mp4\n#EXT-X-KEY:METHOD=NONE\n#EXTINF:2,\n#EXT-X-BYTERANGE:10\na.mp4\n#EXT-X-MAP:URI=\"i2.mp4\"\n#EXT-X-KEY:METHOD=AES-128,URI=\"k2\",IV=0x00000000000000000000000000000001\n#EXTINF:2,\n#EXT-X-BYTERANGE:10\na.mp4\n",
 	)
+	// EXT-X-KEY initialisation vectors of every shape: 1..32 digits, too many digits, odd counts, upper-case prefix, no prefix,
+	// not hexadecimal
+	for _, iv := range []string{"0x1", "0x" + strings.Repeat("a", 31), "0x" + strings.Repeat("0", 32), "0X" + strings.Repeat("F", 32), "0x" + strings.Repeat("1", 33),
+		"0x" + strings.Repeat("2", 34), "0X" + strings.Repeat("3", 40), "0x" + strings.Repeat("4", 64), "0x" + strings.Repeat("5", 1000), strings.Repeat("6", 32), "0x", "0xzz", "0x" + strings.Repeat("g", 34)} {
+		out = append(out, "#EXTM3U\n#EXT-X-VERSION:7\n#EXT-X-TARGETDURATION:2\n#EXT-X-KEY:METHOD=AES-128,URI=\"k\",IV="+iv+"\n#EXTINF:2,\na.ts\n#EXT-X-ENDLIST\n")
+	}
 	dirs, _ := filepath.Glob("testdata/fuzz/*")
 	sort.Strings(dirs)
 	for _, d := range dirs {
